@@ -67,6 +67,10 @@ pub struct Ghost {
     pub t: [Tok; NT],
     /// when set, every storage effect is an obligation failure ("panics before anything changes")
     pub armed: bool,
+    /// when set: the length every registered vector must still have at the moment a fixed-capacity backend
+    /// refuses to grow ("push or insert beyond it panics leaving the contents unchanged")
+    pub panic_len_on: bool,
+    pub panic_len: usize,
     /// capacity the builders stored inside harness vectors give to memory they build (clone targets)
     pub next_build_cap: usize,
     pub n_moves: usize,
@@ -111,6 +115,8 @@ const G0: Ghost = Ghost {
     v: [VEC0; NV],
     t: [TOK0; NT],
     armed: false,
+    panic_len_on: false,
+    panic_len: 0,
     next_build_cap: 0,
     n_moves: 0, n_drop_calls: 0, n_clone_calls: 0, total_destroyed: 0, ext_destroyed: 0, total_cloned: 0,
     in_count: 0, in_witness: 0, in_last_dst: 0, out_count: 0, out_last_src: 0,
@@ -696,6 +702,9 @@ impl Mem for GhostMem {
         let gh = g();
         gh.v[self.k].last_expand = additional;
         if gh.v[self.k].fixed {
+            if gh.panic_len_on && !gh.v[self.k].len_ptr.is_null() {
+                kani::assert(cur_len(self.k) == gh.panic_len, "beyond a fixed capacity: the length is untouched at the moment the backend refuses to grow");
+            }
             // the trait's default behaviour for fixed-capacity memory
             panic!("Can't change capacity!");
         }
